@@ -4,6 +4,7 @@ import (
 	"encoding/json"
 	"fmt"
 	"reflect"
+	"strings"
 
 	"github.com/junioryono/godi/v4/internal/vsched"
 	"github.com/junioryono/godi/v4/verifmc/kit"
@@ -150,8 +151,8 @@ func probeUniverse(e *Env, scope string, types, keys, groups []string) {
 func (e *Env) ProbeOracle(m *Model) []Finding {
 	var out []Finding
 	for _, r := range e.Results {
-		if r.Skipped || r.Panic != nil {
-			continue
+		if r.Skipped || r.Panic != nil || strings.Contains(r.Class, "disposed") || strings.Contains(r.Class, "injected") {
+			continue // use of closed objects is C13's subject; injected constructor failures are C15's
 		}
 		switch r.Op.Kind {
 		case "get":
@@ -434,10 +435,18 @@ func c04Forms(r *mc.Report, nprod int) {
 			r.Sample(map[string]any{"case": c, "observed": e.Summary()})
 		}
 	}
+	forEachFormCase(r, nprod, run)
+}
+
+// forEachFormCase enumerates the (producer set x shape x lifetimes) space, or
+// just the replayed case.
+func forEachFormCase(r *mc.Report, nprod int, run func(c formCase)) {
 	if r.Only != nil {
 		var c formCase
 		json.Unmarshal(r.Only, &c)
-		run(c)
+		if len(c.Prod) == nprod {
+			run(c)
+		}
 		return
 	}
 	tp := prodTemplates()
